@@ -3351,6 +3351,11 @@ class PyCdlib:
             num_bytes_to_remove += self._remove_child_from_dr(rec,
                                                               rec.index_in_parent)
 
+            if rec.rock_ridge is not None and rec.rock_ridge.dr_entries.ce_record is not None and rec.rock_ridge.ce_block is not None:
+                # Give the continuation area of this record back to its block.
+                rec.rock_ridge.ce_block.remove_entry(rec.rock_ridge.dr_entries.ce_record.offset_cont_area,
+                                                     rec.rock_ridge.dr_entries.ce_record.len_cont_area)
+
             if rec.inode is not None:
                 found_index = None
                 for index, reclink in enumerate(rec.inode.linked_records):
